@@ -1631,6 +1631,62 @@ brk("B128", "maximum: bound converted with float() for the comparison",
         yield ValidationError(
             "%r is greater than the maximum of %r" % (instance, maximum)""")], {"C09": "R9."})
 
+brk("B129", "the four draft format checkers taken from a table that holds one shared object (comprehension over a pre-built checker)",
+    [(F, """draft3_format_checker = FormatChecker()
+draft4_format_checker = FormatChecker()
+draft6_format_checker = FormatChecker()
+draft7_format_checker = FormatChecker()
+
+
+_draft_checkers = dict(
+    draft3=draft3_format_checker,
+    draft4=draft4_format_checker,
+    draft6=draft6_format_checker,
+    draft7=draft7_format_checker,
+)""", """_shared_checker = FormatChecker()
+_draft_checkers = {
+    draft: _shared_checker
+    for draft in ("draft3", "draft4", "draft6", "draft7")
+}
+draft3_format_checker = _draft_checkers["draft3"]
+draft4_format_checker = _draft_checkers["draft4"]
+draft6_format_checker = _draft_checkers["draft6"]
+draft7_format_checker = _draft_checkers["draft7"]""")], {"C16": "R16.6|"})
+
+_KT_HELPER = """def _keyword_table(base, changes):
+    table = dict(base)
+    table.update(changes)
+    return {keyword: table[keyword] for keyword in sorted(table)}
+
+
+Draft6Validator = create(
+    meta_schema=_utils.load_schema("draft6"),
+    validators=_keyword_table(Draft4Validator.VALIDATORS, {"""
+_KT_HEAD = """Draft6Validator = create(
+    meta_schema=_utils.load_schema("draft6"),
+    validators={"""
+
+brk("B130", "Draft 6 keyword table computed from Draft 4's by a helper, and propertyNames forgotten",
+    [(V, _KT_HEAD, _KT_HELPER),
+     (V, """        u"propertyNames": _validators.propertyNames,
+        u"required": _validators.required,
+        u"type": _validators.type,
+        u"uniqueItems": _validators.uniqueItems,
+    },
+    type_checker=_types.draft6_type_checker,""", """        u"required": _validators.required,
+        u"type": _validators.type,
+        u"uniqueItems": _validators.uniqueItems,
+    }),
+    type_checker=_types.draft6_type_checker,""")], {"C01": "R1.1|"})
+
+keep("P60", "Draft 6 keyword table computed from Draft 4's by a helper (same keys, same functions)",
+    [(V, _KT_HEAD, _KT_HELPER),
+     (V, """        u"uniqueItems": _validators.uniqueItems,
+    },
+    type_checker=_types.draft6_type_checker,""", """        u"uniqueItems": _validators.uniqueItems,
+    }),
+    type_checker=_types.draft6_type_checker,""")])
+
 # whole-tree transformation: every local and every positionally-passed parameter renamed, plain top-level functions
 # reordered, all eight modules re-emitted through ast.unparse (every line number and the whole layout change).
 # The repository's suite passes on the transformed tree (checked when the transformation was written).
